@@ -256,7 +256,7 @@ class System:
         self.dep = [[z3.Bool('dep_%d_%d' % (i, j)) for j in range(i)] for i in range(self.n)]
         self.root = [z3.Bool('root_%d' % i) for i in range(self.n)]
         self.actors = [ActorModel(prog, kinds[i], i, self.n, watch, dep_syms=self.dep[i]).build() for i in range(self.n)]
-        self.main = MainModel(prog, self.n, watch, root_syms=self.root, roots_dup=roots_dup).build()
+        self.main = MainModel(prog, self.n, watch, root_syms=self.root, roots_dup=roots_dup, kinds=kinds, dep_syms=self.dep).build()
         self.bfs = {i: BuildFuture(prog, self.actors[i]) for i in range(self.n) if kinds[i] == 'build'}
         self.build_time = time.time() - t0
         self.q = [Q('q%d' % i, qcap, self.actors[i].sel_w) for i in range(self.n)]
